@@ -5,6 +5,7 @@
 From Coq Require Import String.
 From KM Require Import Base.Bytes Model.Events Proofs.Events.
 From KM Require Import Model.EventsChurn Proofs.EventsChurn Model.EventsReaders Proofs.EventsReaders.
+From KM Require Import Model.EventsClock Proofs.EventsClock.
 
 (* ---------------------------------------------------------------- issuing paths *)
 
@@ -354,3 +355,74 @@ Example c20_ex_churn :
       (k_conns (krun kalloc_chan [KConn 16; KConn 16; KPub (EWebLogin [1%N]); KDisc 0; KConn 16; KPub (EWebLogin [2%N])] k_init)) =
   [[EWebLogin [1%N]]; [EWebLogin [1%N]; EWebLogin [2%N]]; [EWebLogin [2%N]]].
 Proof. vm_compute. reflexivity. Qed.
+
+(* ---------------------------------------------------------------- entries stamped ahead of the checking clock *)
+Open Scope Z_scope.
+
+(* The clock of the process that reloads or expires and the stamps of the entries are independent
+   (the clock was stepped back; the history file comes from a host whose clock is ahead).  The
+   retention test drops exactly the entries OLDER than the retention: for every clock reading,
+   every retention >= 0 and every history (any order), an entry stamped later than the clock
+   reading survives the hourly expiry and a save and restart. *)
+Theorem c20_expire_keeps_future : forall now ret l e, 0 <= ret -> In e l -> now < ctime e ->
+  In e (expire (now - ret) l) /\ In e (load (now - ret) (save l)).
+Proof. exact keeps_future. Qed.
+Print Assumptions c20_expire_keeps_future.
+
+(* ... as a special case of: whatever is not older than the retention is kept (together with
+   c20_expire_only_old and c20_roundtrip: the survivors are the same entries in the same order,
+   what is gone is older than the retention) *)
+Theorem c20_retention_keeps_young : forall now l e, In e l -> now - 31 * 24 * 3600 <= ctime e ->
+  In e (expire (min_ctime now) l) /\ In e (load (min_ctime now) (save l)).
+Proof. exact retention_keeps_young. Qed.
+Print Assumptions c20_retention_keeps_young.
+
+(* The code computes the cut-off on machine words: uint64(int64 clock - 31 days), then compares two
+   uint64 values.  For every clock reading from 1970-02-01 on (within int64) and entries with ANY
+   stamps this is the model's expire / load over Z ... *)
+Theorem c20_code_u64_is_model : forall now l, retention <= now < 2 ^ 63 ->
+  expire_by (is_old_u64 now) l = expire (min_ctime now) l /\
+  load_by (is_old_u64 now) (save l) = load (min_ctime now) (save l).
+Proof. exact code_u64_is_model. Qed.
+Print Assumptions c20_code_u64_is_model.
+
+(* ... so the code on machine words keeps the entries from the future *)
+Theorem c20_code_u64_keeps_future : forall now l e, retention <= now < 2 ^ 63 -> In e l -> now < ctime e ->
+  In e (expire_by (is_old_u64 now) l) /\ In e (load_by (is_old_u64 now) (save l)).
+Proof. exact code_u64_keeps_future. Qed.
+Print Assumptions c20_code_u64_keeps_future.
+
+(* the hypothesis on the clock is needed: before 1970-02-01 the subtraction is negative, its
+   conversion to uint64 is huge, and an entry stamped at that very instant counts as old *)
+Theorem c20_clock_before_retention_wraps : exists now e,
+  0 <= now < retention /\ ctime e = now /\ is_old_u64 now e = true /\ is_old (min_ctime now) e = false.
+Proof. exact small_clock_drops_now. Qed.
+Print Assumptions c20_clock_before_retention_wraps.
+
+(* The variant "age := now - CreateTime (uint64); old iff age > retention" agrees with the code's
+   test on every entry stamped at or before the clock reading ... *)
+Theorem c20_age_subtraction_same_in_past : forall now e, 0 <= ctime e <= now -> now < two64 ->
+  is_old_age now e = is_old (min_ctime now) e.
+Proof. exact age_same_in_past. Qed.
+Print Assumptions c20_age_subtraction_same_in_past.
+
+(* ... and is wrong for an entry one second ahead of it: the age wraps around, expiry and reload
+   drop the entry although the code's own test keeps it *)
+Theorem c20_age_subtraction_refuted : exists now l e,
+  retention <= now < 2 ^ 63 /\ In e l /\ ctime e = now + 1 /\
+  ~ In e (expire_by (is_old_age now) l) /\ ~ In e (load_by (is_old_age now) (save l)) /\
+  In e (expire_by (is_old_u64 now) l) /\ In e (load_by (is_old_u64 now) (save l)).
+Proof. exact age_drops_future. Qed.
+Print Assumptions c20_age_subtraction_refuted.
+
+Example c20_ex_future :
+  let l := [ev_at 5000000; ev_at 1000; ev_at 9000000; ev_at 3000000] in   (* newest first; any order *)
+  map ctime (expire (min_ctime 4000000) l) = [5000000; 1000; 9000000; 3000000] /\
+  map ctime (expire (min_ctime 6000000) l) = [5000000; 1000; 9000000] /\
+  map ctime (load (min_ctime 6000000) (save l)) = [5000000; 9000000] /\
+  map ctime (expire_by (is_old_age 4000000) l) = [5000000; 1000; 9000000; 3000000] /\
+  map ctime (load_by (is_old_age 4000000) (save l)) = [3000000] /\
+  (* recorded at 4000060, clock stepped back, recorded at 3999990, expiry at 4000000 *)
+  map ctime (expire (min_ctime 4000000) [ev_at 3999990; ev_at 4000060]) = [3999990; 4000060] /\
+  map ctime (expire_by (is_old_age 4000000) [ev_at 3999990; ev_at 4000060]) = [3999990].
+Proof. vm_compute. repeat split; reflexivity. Qed.
